@@ -96,6 +96,44 @@ package vm
 //@         && (bck(i, 1) == bytecode.AddrLcl || bck(i, 1) == bytecode.AddrTmp || (bck(i, 1) == bytecode.AddrGbl && fetchable(bck(i, 1), bca(i, 1), nds))))
 //@ pred codeWF(cs *[]bytecode.Type, ds *[]value.Type) bool := cs != nil && ds != nil && (forall i :: 0 <= i && i < len(*cs) ==> wfExec((*cs)[i], len(*ds)))
 //
+// ---- machine state as the instruction-set reference sees it ------------------------------------------
+//@ pred mSP(m *memory.Type) int := field[int](m, "sp")
+//@ pred mStack(m *memory.Type, i int) value.Type := field[[]value.Type](m, "stack")[i]
+//@ pred mTopFP(m *memory.Type) int := field[[]int](m, "fp")[len(field[[]int](m, "fp"))-2]
+//@ pred mTopCls(m *memory.Type) memory.Frame := field[[]memory.Frame](m, "closure")[len(field[[]memory.Frame](m, "closure"))-1]
+//@ pred mGlobal(m *memory.Type, name string) value.Type := ite(mapdom(field[map[string]value.Type](m, "global"), name), field[map[string]value.Type](m, "global")[name], value.Nil)
+// operand(m, ds, k, a, d): the value an operand of kind k / address a denotes when d stack operands of the
+// same instruction have been consumed before it
+//@ pred operand(m *memory.Type, ds *[]value.Type, k uint64, a int, d int) value.Type :=
+//@     ite(k == bytecode.AddrStck, mStack(m, mSP(m)-1-d),
+//@     ite(k == bytecode.AddrDS, (*ds)[a],
+//@     ite(k == bytecode.AddrLcl, mStack(m, mTopFP(m)+a),
+//@     ite(k == bytecode.AddrCls, mTopCls(m)[a], mGlobal(m, fst2((*ds)[a].ToString()))))))
+//@ fun onStack(k uint64) int := ite(k == bytecode.AddrStck, 1, 0)
+//
+// The operands of the instruction at code address ip, in the order the reference numbers them: src0 is
+// taken first, so with several stack operands src0 is the topmost.
+//@ pred opnd0(cs *[]bytecode.Type, ds *[]value.Type, m *memory.Type, ip int) value.Type := operand(m, ds, bck((*cs)[ip], 0), bca((*cs)[ip], 0), 0)
+//@ pred opnd1(cs *[]bytecode.Type, ds *[]value.Type, m *memory.Type, ip int) value.Type := operand(m, ds, bck((*cs)[ip], 1), bca((*cs)[ip], 1), onStack(bck((*cs)[ip], 0)))
+//@ pred opnd2(cs *[]bytecode.Type, ds *[]value.Type, m *memory.Type, ip int) value.Type := operand(m, ds, bck((*cs)[ip], 2), bca((*cs)[ip], 2), onStack(bck((*cs)[ip], 0)) + onStack(bck((*cs)[ip], 1)))
+//@ fun stackOps1(i bytecode.Type) int := onStack(bck(i, 0))
+//@ fun stackOps2(i bytecode.Type) int := onStack(bck(i, 0)) + onStack(bck(i, 1))
+//@ fun stackOps3(i bytecode.Type) int := onStack(bck(i, 0)) + onStack(bck(i, 1)) + onStack(bck(i, 2))
+//
+//@ fun isValueBinary(op bytecode.OpCode) bool := op == bytecode.ADD || op == bytecode.SUB || op == bytecode.MUL || op == bytecode.DIV || op == bytecode.MOD
+//@     || op == bytecode.AND || op == bytecode.OR || op == bytecode.LT || op == bytecode.GT || op == bytecode.LE || op == bytecode.GE || op == bytecode.EQ || op == bytecode.NE
+//@     || op == bytecode.LSH || op == bytecode.RSH
+//@ fun isValueUnary(op bytecode.OpCode) bool := op == bytecode.NOT || op == bytecode.FLIP || op == bytecode.LEN
+// "ADD pushes src1+src0", ..., "LT pushes src1<src0", ...: the operator named by the opcode, applied to (src1, src0) in this order
+//@ pred binResult(op bytecode.OpCode, a value.Type, b value.Type) value.Type :=
+//@     ite(op == bytecode.ADD || op == bytecode.SUB || op == bytecode.MUL || op == bytecode.DIV, fst2(a.Arith(op, b)),
+//@     ite(op == bytecode.MOD, fst2(a.Mod(b)),
+//@     ite(op == bytecode.AND || op == bytecode.OR, fst2(a.Logic(op, b)),
+//@     ite(op == bytecode.LSH || op == bytecode.RSH, fst2(a.Shift(op, b)),
+//@     ite(op == bytecode.EQ || op == bytecode.NE, fst2(a.Eq(op, b)), fst2(a.Relational(op, b)))))))
+//@ pred unResult(op bytecode.OpCode, a value.Type) value.Type := ite(op == bytecode.NOT, fst2(a.Not()), ite(op == bytecode.FLIP, fst2(a.Flip()), fst2(a.Len())))
+//@ pred movSource(cs *[]bytecode.Type, ds *[]value.Type, m *memory.Type, ip int, tmp value.Type) value.Type := ite(bck((*cs)[ip], 0) == bytecode.AddrTmp, tmp, opnd0(cs, ds, m, ip))
+//
 // Operand fetch: every operand kind a well-formed instruction can carry is served; the data-segment
 // operand is the constant itself.
 //@ func (*Type).fetch [C05,C01]
@@ -105,6 +143,12 @@ package vm
 //@   modifies *m
 //@   ensures[constant;C01,C10] src == bytecode.AddrDS ==> result == (*ds)[addr]
 //@   ensures[only_stack_pops;C01,C09] src != bytecode.AddrStck ==> field[int](m, "sp") == old(field[int](m, "sp"))
+// ... and every operand kind yields the value the instruction-set reference names (types/bytecode: "stack",
+// "local variable", "closure variable", "global variable", "data segment"); a stack operand is consumed.
+//@   ensures[operand;C01,C11,C12] result == old(operand(m, ds, src, addr, 0))
+//@   ensures[stack_operand_consumed;C01,C09] src == bytecode.AddrStck ==> mSP(m) == old(mSP(m)) - 1
+//@   ensures[rest_of_memory_kept;C01] same(field[[]value.Type](m, "stack"), old(field[[]value.Type](m, "stack"))) && same(field[[]int](m, "fp"), old(field[[]int](m, "fp")))
+//@       && same(field[[]memory.Frame](m, "closure"), old(field[[]memory.Frame](m, "closure"))) && ref(field[map[string]value.Type](m, "global")) == old(ref(field[map[string]value.Type](m, "global")))
 //
 // Context keys (C02: "children keyed by call depth and lexical id"): the key is depth * 2^15 xor id.
 // That this formula is injective for ids below 2^15 (what EncodeSrc admits) and depths below 2^49 is
@@ -151,6 +195,58 @@ package vm
 //@   loop 0 invariant[code] cs == vm.CR.CS && ds == vm.CR.DS && codeWF(cs, ds) && vm.stdin == old(vm.stdin) && err == nil
 //@   loop 1 invariant[rcont] cs == vm.CR.CS && ds == vm.CR.DS && codeWF(cs, ds) && vm.stdin == old(vm.stdin) && err == nil && (forall j :: lo <= j && j < i ==> !imhas(ctxp.children, hashContext(m, j)))
 //@   loop 2 invariant[dcont] cs == vm.CR.CS && ds == vm.CR.DS && codeWF(cs, ds) && vm.stdin == old(vm.stdin) && err == nil && (forall j :: lo__2 <= j && j < i__3 ==> !imhas(ctxp.children, hashContext(m, j)))
+//
+// ---- the instruction-set reference (types/bytecode/bytecode.go) as a step relation -------------------
+// Checked at every back edge of the run loop; iter(e) is e at the head of the iteration, so
+// iter((*cs)[ip]) is the instruction being executed. An instruction that ends in a runtime error leaves
+// the loop and is not constrained here.
+//@   loop 0 step[isa_binary;C01,C11,C12] iter(isValueBinary(bcop((*cs)[ip]))) ==>
+//@        ip == iter(ip) + 1 && m == iter(m) && tmp == iter(tmp) && mSP(m) == iter(mSP(m)) - iter(stackOps2((*cs)[ip])) + 1
+//@        && mStack(m, mSP(m)-1) == binResult(iter(bcop((*cs)[ip])), iter(opnd1(cs, ds, m, ip)), iter(opnd0(cs, ds, m, ip)))
+//@   loop 0 step[isa_binary_tmp;C01,C11,C12] iter(isValueBinary(bcop((*cs)[ip]) - bytecode.TempFlag)) ==>
+//@        ip == iter(ip) + 1 && m == iter(m) && mSP(m) == iter(mSP(m)) - iter(stackOps1((*cs)[ip]))
+//@        && tmp == binResult(iter(bcop((*cs)[ip])) - bytecode.TempFlag, iter(tmp), iter(opnd0(cs, ds, m, ip)))
+//@   loop 0 step[isa_unary;C01,C11,C12] iter(isValueUnary(bcop((*cs)[ip]))) ==>
+//@        ip == iter(ip) + 1 && m == iter(m) && tmp == iter(tmp) && mSP(m) == iter(mSP(m)) - iter(stackOps1((*cs)[ip])) + 1
+//@        && mStack(m, mSP(m)-1) == unResult(iter(bcop((*cs)[ip])), iter(opnd0(cs, ds, m, ip)))
+//@   loop 0 step[isa_unary_tmp;C01,C11,C12] iter(isValueUnary(bcop((*cs)[ip]) - bytecode.TempFlag)) ==>
+//@        ip == iter(ip) + 1 && m == iter(m) && mSP(m) == iter(mSP(m)) && tmp == unResult(iter(bcop((*cs)[ip])) - bytecode.TempFlag, iter(tmp))
+// Instructions whose pushed value is pinned elsewhere (IX1/IX2: atcall below; ARR, FUNC: C10/C04 clauses; READ, ATON: C17 clauses):
+// they consume their stack operands, push exactly one value and fall through.
+//@   loop 0 step[isa_pushes_one;C01,C09,C12] (iter(bcop((*cs)[ip])) == bytecode.IX1 || iter(bcop((*cs)[ip])) == bytecode.ARR ==> ip == iter(ip) + 1 && m == iter(m) && tmp == iter(tmp) && mSP(m) == iter(mSP(m)) - iter(stackOps2((*cs)[ip])) + 1)
+//@        && (iter(bcop((*cs)[ip])) == bytecode.IX2 ==> ip == iter(ip) + 1 && m == iter(m) && tmp == iter(tmp) && mSP(m) == iter(mSP(m)) - iter(stackOps3((*cs)[ip])) + 1)
+//@        && (iter(bcop((*cs)[ip])) == bytecode.FUNC || iter(bcop((*cs)[ip])) == bytecode.ATON || iter(bcop((*cs)[ip])) == bytecode.TOA || iter(bcop((*cs)[ip])) == bytecode.WRITE
+//@             ==> ip == iter(ip) + 1 && m == iter(m) && tmp == iter(tmp) && mSP(m) == iter(mSP(m)) - iter(stackOps1((*cs)[ip])) + 1)
+//@        && (iter(bcop((*cs)[ip])) == bytecode.READ ==> ip == iter(ip) + 1 && m == iter(m) && tmp == iter(tmp) && mSP(m) == iter(mSP(m)) + 1)
+//@        && (iter(bcop((*cs)[ip])) == bytecode.WRITE ==> mStack(m, mSP(m)-1) == value.Nil)
+//@        && (iter(bcop((*cs)[ip])) == bytecode.TOA ==> mStack(m, mSP(m)-1) == value.NewString(iter(opnd0(cs, ds, m, ip)).String()))
+// CALL: "calls src0 with argument cnt src1" - the frame covers the arguments already on the stack plus the
+// callee's other locals, the callee's captured frame becomes the active closure, the return address is pushed last.
+//@   loop 0 step[isa_call;C01,C04,C18,C03] iter(bcop((*cs)[ip])) == bytecode.CALL ==> m == iter(m) && tmp == iter(tmp)
+//@        && ip == iter(fst2(opnd0(cs, ds, m, ip).ToFunction()).Node)
+//@        && mSP(m) == iter(mSP(m)) - iter(stackOps1((*cs)[ip])) - iter(bca((*cs)[ip], 1)) + iter(fst2(opnd0(cs, ds, m, ip).ToFunction()).LocalCnt) + 1
+//@        && mStack(m, mSP(m)-1) == value.NewInt(iter(ip))
+//@        && len(field[[]int](m, "fp")) == iter(len(field[[]int](m, "fp"))) + 2 && mTopFP(m) == iter(mSP(m)) - iter(stackOps1((*cs)[ip])) - iter(bca((*cs)[ip], 1))
+//@        && len(field[[]memory.Frame](m, "closure")) == iter(len(field[[]memory.Frame](m, "closure"))) + 1 && same(mTopCls(m), iter(*fst2(opnd0(cs, ds, m, ip).ToFunction()).Frame))
+//@   loop 0 step[isa_stack;C01,C09,C12] (iter(bcop((*cs)[ip])) == bytecode.PUSH ==> ip == iter(ip) + 1 && m == iter(m) && tmp == iter(tmp)
+//@             && mSP(m) == iter(mSP(m)) - iter(stackOps1((*cs)[ip])) + 1 && mStack(m, mSP(m)-1) == iter(opnd0(cs, ds, m, ip)))
+//@        && (iter(bcop((*cs)[ip])) == bytecode.PUSHTMP ==> ip == iter(ip) + 1 && m == iter(m) && tmp == iter(tmp) && mSP(m) == iter(mSP(m)) + 1 && mStack(m, mSP(m)-1) == iter(tmp))
+//@        && (iter(bcop((*cs)[ip])) == bytecode.POP ==> ip == iter(ip) + 1 && m == iter(m) && tmp == iter(tmp) && mSP(m) == iter(mSP(m)) - 1)
+//@   loop 0 step[isa_mov;C01,C04,C12,C18] iter(bcop((*cs)[ip])) == bytecode.MOV ==> ip == iter(ip) + 1 && m == iter(m) && mSP(m) == iter(mSP(m)) - iter(stackOps1((*cs)[ip]))
+//@        && (iter(bck((*cs)[ip], 1)) == bytecode.AddrLcl ==> tmp == iter(tmp) && mStack(m, mTopFP(m) + iter(bca((*cs)[ip], 1))) == iter(movSource(cs, ds, m, ip, tmp)))
+//@        && (iter(bck((*cs)[ip], 1)) == bytecode.AddrGbl ==> tmp == iter(tmp) && mGlobal(m, iter(fst2((*ds)[bca((*cs)[ip], 1)].ToString()))) == iter(movSource(cs, ds, m, ip, tmp)))
+//@        && (iter(bck((*cs)[ip], 1)) == bytecode.AddrTmp ==> tmp == iter(movSource(cs, ds, m, ip, tmp)))
+//@   loop 0 step[isa_inc;C01,C04,C11,C12] iter(bcop((*cs)[ip])) == bytecode.INC ==> ip == iter(ip) + 1 && m == iter(m) && tmp == iter(tmp) && mSP(m) == iter(mSP(m))
+//@        && (iter(bck((*cs)[ip], 0)) == bytecode.AddrLcl ==> mStack(m, mTopFP(m) + iter(bca((*cs)[ip], 0))) == fst2(iter(opnd0(cs, ds, m, ip)).Arith(bytecode.ADD, value.NewInt(1))))
+//@        && (iter(bck((*cs)[ip], 0)) == bytecode.AddrGbl ==> mGlobal(m, iter(fst2((*ds)[bca((*cs)[ip], 0)].ToString()))) == fst2(iter(opnd0(cs, ds, m, ip)).Arith(bytecode.ADD, value.NewInt(1))))
+//@   loop 0 step[isa_jump;C01,C12] (iter(bcop((*cs)[ip])) == bytecode.JMP ==> ip == iter(ip) + iter(bca((*cs)[ip], 0)) && m == iter(m) && tmp == iter(tmp) && mSP(m) == iter(mSP(m)))
+//@        && (iter(bcop((*cs)[ip])) == bytecode.JMPF || iter(bcop((*cs)[ip])) == bytecode.JMPT ==> m == iter(m) && tmp == iter(tmp) && mSP(m) == iter(mSP(m)) - iter(stackOps1((*cs)[ip]))
+//@             && snd2(iter(opnd0(cs, ds, m, ip)).ToBool())
+//@             && ip == iter(ip) + ite((iter(bcop((*cs)[ip])) == bytecode.JMPT) == fst2(iter(opnd0(cs, ds, m, ip)).ToBool()), iter(bca((*cs)[ip], 1)), 1))
+// IX1 "pushes src1[src0]", IX2 "pushes src2[src1:src0]": the indexed value and the index operands in this order.
+//@   atcall .Index( with (callee_t value.Type, callee_b []value.Type) requires[index_operands;C01,C11,C12] (iter(bcop((*cs)[ip])) == bytecode.IX1 || iter(bcop((*cs)[ip])) == bytecode.IX2)
+//@        && (iter(bcop((*cs)[ip])) == bytecode.IX1 ==> callee_t == iter(opnd1(cs, ds, m, ip)) && len(callee_b) == 1 && callee_b[0] == iter(opnd0(cs, ds, m, ip)))
+//@        && (iter(bcop((*cs)[ip])) == bytecode.IX2 ==> callee_t == iter(opnd2(cs, ds, m, ip)) && len(callee_b) == 2 && callee_b[0] == iter(opnd1(cs, ds, m, ip)) && callee_b[1] == iter(opnd0(cs, ds, m, ip)))
 //
 // C10: the array built by an array-literal step is new storage, whatever its operands were.
 //@   atcall value.NewArray(slc) with (callee_a []value.Type) requires[array_is_fresh;C10] fresh(callee_a)
